@@ -28,7 +28,8 @@ impl IntoParallelSource for Range<u64> {
     type Iter = Range<u64>;
 
     fn generate_iterator(self, index: CoordUInt, peers: CoordUInt) -> Self::Iter {
-        let n = self.end - self.start;
+        // an empty or reversed range has no elements
+        let n = self.end.saturating_sub(self.start);
         let chunk_size = (n.saturating_add(peers - 1)) / peers;
         let start = self.start.saturating_add(index * chunk_size);
         let end = (start.saturating_add(chunk_size))
@@ -45,14 +46,19 @@ macro_rules! impl_into_parallel_source_range {
             type Iter = Range<$t>;
 
             fn generate_iterator(self, index: CoordUInt, peers: CoordUInt) -> Self::Iter {
-                let index: i64 = index.try_into().unwrap();
-                let peers: i64 = peers.try_into().unwrap();
-                let n = self.end as i64 - self.start as i64;
-                let chunk_size = (n.saturating_add(peers - 1)) / peers;
-                let start = (self.start as i64).saturating_add(index * chunk_size);
-                let end = (start.saturating_add(chunk_size))
-                    .min(self.end as i64)
-                    .max(self.start as i64);
+                // i128 holds every supported integer type (including usize above i64::MAX)
+                let index = index as i128;
+                let peers = peers as i128;
+                let (first, last) = (self.start as i128, self.end as i128);
+                // an empty or reversed range has no elements
+                let n = (last - first).max(0);
+                let chunk_size = (n + peers - 1) / peers;
+                // clamp into [first, last] so that both bounds always fit the element type
+                let start = first
+                    .saturating_add(index.saturating_mul(chunk_size))
+                    .min(last)
+                    .max(first);
+                let end = start.saturating_add(chunk_size).min(last).max(start);
 
                 let (start, end) = (start.try_into().unwrap(), end.try_into().unwrap());
                 start..end
